@@ -446,3 +446,31 @@ func VerifC06Defrag2(window int, perSeq int) {
 	h.forward([]int{1})
 	verifReach("defrag2-shape-done")
 }
+
+// VerifC06Defrag3: the shape in which defragmentation moves a BLOCK of three consecutive tail cells into a
+// hole of three cells at the front while a fourth hole lies elsewhere: sequence a takes cells 0-2, b cell 3,
+// a cell 4, b cells 5-7; a is removed (holes 0-2 and 4); a new batch of 1-4 tokens for a needs contiguous
+// room; then both sequences continue. Which sequence is a is the solver's choice.
+func VerifC06Defrag3(window int) {
+	h := vfNew(window, 2, 4, 8)
+	a := verifChoice(2)
+	b := 1 - a
+	h.forward([]int{a, a, a})
+	h.forward([]int{b})
+	h.forward([]int{a})
+	h.forward([]int{b, b, b})
+	h.remove(a, 0, math.MaxInt32)
+	n := 1 + verifChoice(4)
+	seqs := make([]int, n)
+	for i := range seqs {
+		seqs[i] = a
+	}
+	h.forward(seqs)
+	// drop the end of either sequence by position (the moved cells must still carry their own positions)
+	cut := verifNondetInt32("trim")
+	verifAssume(cut >= 1 && cut <= 3)
+	h.remove(verifChoice(2), cut, math.MaxInt32)
+	h.forward([]int{b})
+	h.forward([]int{a})
+	verifReach("defrag3-shape-done")
+}
